@@ -2,6 +2,11 @@
 
 use crate::core::guard;
 use crate::inst::{Adapter, ApSpec, Inst, Kind, Region, ShardErr, SimVdaf};
+use crate::world_a::{ByzEdit, ByzLabel, Mutation, Site};
+use prio::codec::Decode;
+use prio::idpf::{Idpf, IdpfOutputShare, IdpfPublicShare, NoCache};
+use prio::vdaf::poplar1::Poplar1IdpfValue;
+use prio::vdaf::xof::Seed;
 use crate::model::P64;
 use crate::rng::Rng;
 use crate::util::N;
@@ -152,6 +157,36 @@ impl Adapter<Pop> for PopAd {
         }
         v
     }
+    fn byz_rewrite(&self, _vdaf: &Pop, ctx: &[u8], nonce: &[u8; 16], meas: &[N], public: &mut Vec<u8>, inputs: &mut Vec<Vec<u8>>, edits: &[ByzEdit], aps: &[ApSpec]) -> Vec<ByzLabel> {
+        byz_rewrite_poplar(self.bits(), ctx, nonce, meas, public, inputs, edits, aps)
+    }
+    fn strict_applies(&self, site: &Site, ap: &ApSpec, meas: &[N]) -> bool {
+        let bits = self.bits();
+        let plen = ap.first().map(|p| p.len()).unwrap_or(1);
+        let level = plen - 1;
+        let leaf = plen == bits;
+        if site.len_change {
+            return true;
+        }
+        match (site.kind, site.region) {
+            (Kind::VShare, _) => true,
+            // the leader's round-two computation uses only the first sketch element (A*z0 + B); the
+            // helper uses all three
+            (Kind::VMsg, _) => site.agg == 1 || site.rel.1 <= if leaf { 32 } else { 8 },
+            (Kind::Input, "idpf_key") | (Kind::Input, "corr_seed") => true,
+            (Kind::Input, "corr_inner") => !leaf && site.rel.0 >= 16 * level && site.rel.1 <= 16 * level + 16,
+            (Kind::Input, "corr_leaf") => leaf,
+            (Kind::Public, "inner_payloads") | (Kind::Public, "leaf_payload") => {
+                // payload correction word of the queried level, and the on-path prefix is a candidate
+                let on_path = bits_to_string(&meas[..plen.min(meas.len())]);
+                let queried = if site.region == "leaf_payload" { leaf } else { !leaf && site.rel.0 >= 16 * level && site.rel.1 <= 16 * level + 16 };
+                // per link the payload word is applied by only ONE of the two parties on the path (the one
+                // whose control bit is set), so only an at-source alteration is guaranteed to matter
+                site.at_source && queried && ap.iter().any(|p| *p == on_path)
+            }
+            _ => false,
+        }
+    }
     fn same_type_instance(&self, other: &Inst) -> Option<Pop> {
         if other.class != "poplar1" {
             return None;
@@ -267,4 +302,203 @@ pub fn gen_ap_history(rng: &mut Rng, inst: &Inst, inputs: &[Vec<N>], max_hist: u
         hist.push(ap);
     }
     hist
+}
+
+
+// ---- Byzantine client by wire rewrites -------------------------------------------------------
+
+type PubShare = IdpfPublicShare<Poplar1IdpfValue<Field64>, Poplar1IdpfValue<Field255>>;
+
+/// Reconstructed (data, authenticator) encodings at `prefix`, or None if something fails to
+/// decode / evaluate.
+fn eval_sum(bits: usize, ctx: &[u8], nonce: &[u8], public: &[u8], inputs: &[Vec<u8>], prefix: &str) -> Option<(Vec<u8>, Vec<u8>)> {
+    let ps = PubShare::get_decoded_with_param(&bits, public).ok()?;
+    let idpf: Idpf<Poplar1IdpfValue<Field64>, Poplar1IdpfValue<Field255>> = Idpf::new((), ());
+    let pre = str_to_input(prefix);
+    let mut outs = Vec::new();
+    for j in 0..2 {
+        let key = Seed::<16>::get_decoded(inputs[j].get(..16)?).ok()?;
+        let r = std::panic::catch_unwind(std::panic::AssertUnwindSafe(|| idpf.eval(j, &ps, &key, &pre, ctx, nonce, &mut NoCache::new())));
+        outs.push(r.ok()?.ok()?);
+    }
+    let b = outs.pop()?;
+    let a = outs.pop()?;
+    let sum = a.merge(b).ok()?;
+    let enc = match sum {
+        IdpfOutputShare::Inner(v) => v.get_encoded().ok()?,
+        IdpfOutputShare::Leaf(v) => v.get_encoded().ok()?,
+    };
+    let h = enc.len() / 2;
+    Some((enc[..h].to_vec(), enc[h..].to_vec()))
+}
+
+fn fe_add<F: FieldElement>(bytes: &mut [u8], delta: F, negate: bool) -> Option<()> {
+    let cur = F::get_decoded(bytes).ok()?;
+    let new = if negate { cur - delta } else { cur + delta };
+    bytes.copy_from_slice(&new.get_encoded().ok()?);
+    Some(())
+}
+
+fn small<F: FieldElement>(k: u64) -> F {
+    let mut x = F::zero();
+    for _ in 0..k {
+        x = x + F::one();
+    }
+    x
+}
+
+fn reprogram<F: FieldElement>(bits: usize, ctx: &[u8], nonce: &[u8], public: &mut Vec<u8>, inputs: &[Vec<u8>], on_path: &str, off: usize, beta: &str, consistent: bool) -> Option<String> {
+    let fs = F::ENCODED_SIZE;
+    let (d0, a0) = eval_sum(bits, ctx, nonce, public, inputs, on_path)?;
+    let cur_d = F::get_decoded(&d0).ok()?;
+    let k = F::get_decoded(&a0).ok()?;
+    let b: F = match beta {
+        "0" => F::zero(),
+        "1" => F::one(),
+        "2" => small(2),
+        "-1" => F::zero() - F::one(),
+        _ => small::<F>(3) + k, // some value that is neither 0 nor 1 with overwhelming probability
+    };
+    let kappa = if consistent { k * b } else { k * b + F::one() };
+    let (dd, da) = (b - cur_d, kappa - k);
+    for negate in [false, true] {
+        let saved = public.clone();
+        fe_add::<F>(&mut public[off..off + fs], dd, negate)?;
+        fe_add::<F>(&mut public[off + fs..off + 2 * fs], da, negate)?;
+        if let Some((d1, a1)) = eval_sum(bits, ctx, nonce, public, inputs, on_path) {
+            if F::get_decoded(&d1).ok()? == b && F::get_decoded(&a1).ok()? == kappa {
+                return Some(format!("on-path value at prefix length {} re-programmed to beta={beta}, authenticator {}", on_path.len(), if consistent { "k*beta" } else { "k*beta+1" }));
+            }
+        }
+        *public = saved;
+    }
+    None
+}
+
+#[allow(clippy::too_many_arguments)]
+pub fn byz_rewrite_poplar(bits: usize, ctx: &[u8], nonce: &[u8; 16], meas: &[N], public: &mut Vec<u8>, inputs: &mut Vec<Vec<u8>>, edits: &[ByzEdit], aps: &[ApSpec]) -> Vec<ByzLabel> {
+    let input = bits_to_string(meas);
+    // honest authenticators per level (before any edit)
+    let honest_auth: Vec<Option<Vec<u8>>> = (1..=bits).map(|l| eval_sum(bits, ctx, nonce, public, inputs, &input[..l]).map(|x| x.1)).collect();
+    let ctrl = (2 * bits).div_ceil(8);
+    let seeds_off = ctrl;
+    let inner_off = ctrl + 16 * bits;
+    let leaf_off = inner_off + 16 * (bits - 1);
+    let mut corr_levels_touched: Vec<usize> = Vec::new(); // level index; bits-1 = leaf
+    let mut corr_seed_touched = false;
+    let mut notes: Vec<String> = Vec::new();
+    for e in edits {
+        match e {
+            ByzEdit::Payload { level, beta, consistent } => {
+                let l = *level as usize % bits;
+                let on_path = &input[..l + 1];
+                let r = if l == bits - 1 { reprogram::<Field255>(bits, ctx, nonce, public, inputs, on_path, leaf_off, beta, *consistent) } else { reprogram::<Field64>(bits, ctx, nonce, public, inputs, on_path, inner_off + 16 * l, beta, *consistent) };
+                notes.push(r.unwrap_or_else(|| format!("payload rewrite at level {l} did not take")));
+            }
+            ByzEdit::SeedCw { m } => {
+                let mut region = public[..inner_off].to_vec();
+                raw_edit(&mut region, m, false);
+                if region.len() == inner_off {
+                    public[..inner_off].copy_from_slice(&region);
+                    // keep unused control bits zero so that the share still decodes
+                    let used = 2 * bits;
+                    if used % 8 != 0 {
+                        public[ctrl - 1] &= (1u16 << (used % 8)).wrapping_sub(1) as u8;
+                    }
+                }
+                let _ = seeds_off;
+                notes.push("seed / control-bit correction words mutated".into());
+            }
+            ByzEdit::CorrShare { agg, level, which, delta } => {
+                let a = *agg as usize % 2;
+                let l = (*level as usize).min(bits - 1);
+                let w = *which as usize % 2;
+                let d = (delta.0 as u64) | 1;
+                if l == bits - 1 {
+                    let off = 48 + 16 * (bits - 1) + 32 * w;
+                    let _ = fe_add::<Field255>(&mut inputs[a][off..off + 32], small::<Field255>(d % 1000 + 1), false);
+                } else {
+                    let off = 48 + 16 * l + 8 * w;
+                    let _ = fe_add::<Field64>(&mut inputs[a][off..off + 8], Field64::from(d), false);
+                }
+                corr_levels_touched.push(l);
+                notes.push(format!("{} share of aggregator {a} at level {l} altered", if w == 0 { "A" } else { "B" }));
+            }
+            ByzEdit::KeyBytes { agg, which, m } => {
+                let a = *agg as usize % 2;
+                let (lo, hi) = if *which % 2 == 0 { (0, 16) } else { (16, 48) };
+                let mut region = inputs[a][lo..hi].to_vec();
+                let before = region.clone();
+                raw_edit(&mut region, m, true);
+                if region.len() == hi - lo && region != before {
+                    inputs[a][lo..hi].copy_from_slice(&region);
+                    if *which % 2 == 1 {
+                        corr_seed_touched = true;
+                    }
+                    notes.push(format!("{} of aggregator {a} altered", if *which % 2 == 0 { "IDPF key" } else { "correlated-randomness seed" }));
+                }
+            }
+        }
+    }
+    // labels by re-evaluation over each parameter's candidates
+    let mut labels = Vec::new();
+    for (ai, ap) in aps.iter().enumerate() {
+        let plen = ap.first().map(|p| p.len()).unwrap_or(1);
+        let level = plen - 1;
+        let fs = if plen == bits { 32 } else { 8 };
+        let zero = vec![0u8; fs];
+        let mut one = vec![0u8; fs];
+        one[0] = 1;
+        let k = honest_auth.get(level).cloned().flatten();
+        let mut ones = 0;
+        let mut bad = false;
+        let mut undecodable = false;
+        for p in ap {
+            match eval_sum(bits, ctx, nonce, public, inputs, p) {
+                None => undecodable = true,
+                Some((d, a)) => {
+                    if d == zero && a == zero {
+                    } else if d == one && Some(&a) == k.as_ref() {
+                        ones += 1;
+                    } else {
+                        bad = true;
+                    }
+                }
+            }
+        }
+        let corr_bad = corr_seed_touched || corr_levels_touched.contains(&level);
+        let must_reject = undecodable || bad || ones > 1 || corr_bad;
+        labels.push(ByzLabel { ap: ai as u32, must_reject, desc: format!("{}; over the {} candidates of length {plen}: {} one-entries, invalid entry: {bad}, correlated randomness of this level altered: {corr_bad}", notes.join("; "), ap.len(), ones) });
+    }
+    labels
+}
+
+fn raw_edit(b: &mut Vec<u8>, m: &Mutation, keep_len: bool) {
+    match m {
+        Mutation::Flip { pos, bit } if !b.is_empty() => {
+            let p = *pos as usize % b.len();
+            b[p] ^= 1 << (bit % 8);
+        }
+        Mutation::Set { pos, val } if !b.is_empty() => {
+            let p = *pos as usize % b.len();
+            b[p] = *val;
+        }
+        Mutation::FieldSet { elem, raw, .. } if b.len() >= 16 && raw.0.len() >= 16 => {
+            let cnt = b.len() / 16;
+            let e = *elem as usize % cnt;
+            b[e * 16..e * 16 + 16].copy_from_slice(&raw.0[..16]);
+        }
+        Mutation::FieldAdd { elem, delta, .. } if !b.is_empty() => {
+            let p = *elem as usize % b.len();
+            b[p] = b[p].wrapping_add((delta.0 as u8) | 1);
+        }
+        _ => {
+            if !keep_len && !b.is_empty() {
+                b[0] ^= 1;
+            } else if !b.is_empty() {
+                let l = b.len();
+                b[l - 1] ^= 0x80;
+            }
+        }
+    }
 }
